@@ -8,6 +8,6 @@ CONSTANTS
  PatchCL = FALSE
  Mut = "none"
  RecordHist = FALSE
+ Monitor = TRUE
  FullProduct = FALSE
-VIEW View
-INVARIANTS ContentLengthGone
+INVARIANTS ContentLengthGone MonitorStrict
